@@ -848,8 +848,8 @@ Proof.
 Qed.
 
 Definition usbtmc_entry (r1 r2 r3 : bool) : entry :=
-  mkEntry (mkTable (str_of "usbtmc") [] [(n_vendorid, TInt, r1); (n_productid, TInt, r2); (n_serialnr, TStr, r3)])
-          KUsbTmc [(n_vendorid, None); (n_productid, None); (n_serialnr, None)].
+  mkEntry (mkTable (str_of "usbtmc") [] [(n_productid, TInt, r2); (n_serialnr, TStr, r3); (n_vendorid, TInt, r1)])
+          KUsbTmc [(n_productid, None); (n_serialnr, None); (n_vendorid, None)].
 
 Lemma usbtmc_shape_inv : forall e, usbtmc_shape e = true -> exists r1 r2 r3, e = usbtmc_entry r1 r2 r3.
 Proof.
@@ -865,7 +865,7 @@ Proof.
   repeat (apply andb_true_iff in Hc as [Hc ?]).
   repeat match goal with X : str_eqb _ _ = true |- _ => apply str_eqb_eq in X end.
   destruct ta, tb, tc; try discriminate. subst.
-  exists ra, rb, rc. reflexivity.
+  exists rc, ra, rb. reflexivity.
 Qed.
 
 Section RoundTrip.
@@ -886,7 +886,7 @@ Section RoundTrip.
   Proof. intros ks part r k v prm x d S F T R. simpl. rewrite S, F, T, R. reflexivity. Qed.
 
   Definition usbtmc_result (zv zp : Z) (serial : str) : transport :=
-    mkTransport KUsbTmc [(n_vendorid, VInt zv); (n_productid, VInt zp); (n_serialnr, VStr serial)].
+    mkTransport KUsbTmc [(n_productid, VInt zp); (n_serialnr, VStr serial); (n_vendorid, VInt zv)].
 
   Lemma usbtmc_core : forall E d r1 r2 r3 hv hp serial zv zp,
     find_entry E (str_of "usbtmc") = Some (usbtmc_entry r1 r2 r3) ->
@@ -935,7 +935,7 @@ Section RoundTrip.
       { unfold type_kw, pty. simpl. rewrite Hp. reflexivity. }
       eapply parse_kw_cons with (prm := (n_serialnr, TStr, r3)); [exact S3 | reflexivity | reflexivity | reflexivity]. }
     assert (PA : parse T d (str_of "usbtmc" ++ join [P1; P2; P3])
-                 = Ok [(n_vendorid, VInt zv); (n_productid, VInt zp); (n_serialnr, VStr serial)]).
+                 = Ok [(n_productid, VInt zp); (n_serialnr, VStr serial); (n_vendorid, VInt zv)]).
     { unfold parse. rewrite Tk. cbn [length Nat.ltb Nat.leb hd tl].
       replace (str_eqb (lower (str_of "usbtmc")) (t_iface T)) with true by (vm_compute; reflexivity).
       cbn [negb]. cbv iota.
@@ -948,7 +948,7 @@ Section RoundTrip.
     rewrite F. fold T. rewrite PA.
     unfold build, usbtmc_entry, e_ctor, e_kind.
     replace (forallb _ _) with true by reflexivity. cbn [negb]. cbv iota.
-    replace (fill _ _) with (Some [(n_vendorid, VInt zv); (n_productid, VInt zp); (n_serialnr, VStr serial)]) by reflexivity.
+    replace (fill _ _) with (Some [(n_productid, VInt zp); (n_serialnr, VStr serial); (n_vendorid, VInt zv)]) by reflexivity.
     unfold validate.
     replace (get n_vendorid _) with (Some (VInt zv)) by reflexivity.
     replace (get n_productid _) with (Some (VInt zp)) by reflexivity.
